@@ -1105,6 +1105,8 @@ class Interp:
             return [(iv_cmod(num(args[0]), num(args[1])), st)]
         if short in ("_int32_overflow", "_int64_overflow") and len(args) == 1:
             bits = 31 if "32" in short else 63
+            if self.on_builtin is not None and isinstance(fx, ast.Name) and (depth == 0 or self.hooks_all_depths):
+                self.on_builtin(c, args, st, fn)
             x = num(args[0])
             if x.within(-(2**bits), 2**bits - 1):
                 return [(x, st)]
